@@ -3,9 +3,10 @@ C10 — join / merge / coalesce / add_statics / period_merge obey their relation
 Only property theorems live here (helper lemmas: `Lemmas/Join.lean`).
 -/
 import Bermuda.Lemmas.Join
+import Bermuda.Lemmas.JoinSpec
 import Bermuda.Properties.C01
 namespace Bermuda.Properties.C10
-open Bermuda List
+open Bermuda List Bermuda.JoinL
 open Bermuda.Properties.C01 (ofCells_perm ofCells_sorted ofCells_ok_iff ofCells_idem Canonical kindsConsistent_perm)
 
 /-! ### 1. join: the returned coordinates are the relational set expression -/
@@ -593,6 +594,336 @@ theorem coalesceSpec_of_coalesce {ts : List (List Cell)} {out : List Cell}
   exact ⟨⟨nodupB_iff.mpr h2, fun c hc => (h1 c).mp hc⟩,
     fun d hd => List.contains_iff_mem.mpr (h3 d hd)⟩
 
+theorem filterMap_merge_keys {inc : Bool} {ps : List CellPair}
+    (h : ∀ p ∈ ps, Spec.pairKey? inc p ≠ none) :
+    (ps.filterMap mergeCellPair).map (fun c => some (joinKey inc c)) = ps.map (Spec.pairKey? inc) := by
+  induction ps with
+  | nil => rfl
+  | cons p ps ih =>
+    have hp := mergeCellPair_isSome (h p (by simp))
+    rw [List.filterMap_cons]
+    cases hm : mergeCellPair p with
+    | none => rw [hm] at hp; cases hp
+    | some c =>
+      simp only [List.map_cons, mergeCellPair_key hm, ih (fun q hq => h q (by simp [hq]))]
+
+/-- **`Spec.mergeSpec` holds of the model's `merge`** for every join type and `on`, under the
+distinct-keys hypothesis and for value dicts with distinct keys (true of every Python dict). -/
+theorem mergeSpec_of_merge {ty : JoinType} {on : Option (List String)} {a b out : List Cell}
+    (hyp : Spec.joinHyp on a b = true) (hv : ∀ c ∈ a ++ b, c.values.WF)
+    (h : merge (some ty) on a b = .ok out) : Spec.mergeSpec ty on a b out = true := by
+  obtain ⟨ps, hj, hperm, _⟩ := merge_ok h
+  have hyp' := hyp
+  unfold Spec.joinHyp at hyp'
+  simp only [Bool.and_eq_true, nodupB_iff] at hyp'
+  obtain ⟨hna, hnb⟩ := hyp'
+  obtain ⟨hnd, hnone, hset⟩ := join_keys_on hj
+  have hex := join_pairs_exact hj hna hnb
+  have hkeys := filterMap_merge_keys (inc := isIncremental a) (ps := ps)
+    (fun p hp hn => hnone (List.mem_map.mpr ⟨p, hp, hn⟩))
+  have hpk : ((out.map (joinKey (isIncremental a))).map some).Perm (ps.map (Spec.pairKey? (isIncremental a))) := by
+    rw [← hkeys, List.map_map]
+    exact (hperm.map _)
+  have hmemk : ∀ k, k ∈ out.map (joinKey (isIncremental a)) ↔
+      some k ∈ ps.map (Spec.pairKey? (isIncremental a)) := by
+    intro k
+    rw [← hpk.mem_iff]
+    simp
+  unfold Spec.mergeSpec
+  simp only [Bool.and_eq_true, List.all_eq_true]
+  refine ⟨⟨nodupB_iff.mpr ?_, fun c hc => ?_⟩, fun k _ => ?_⟩
+  · have : ((out.map (joinKey (isIncremental a))).map some).Nodup := hpk.nodup_iff.mpr hnd
+    exact List.Pairwise.of_map some (fun x y hxy e => hxy (by rw [e])) this
+  · obtain ⟨p, hp, hm⟩ := (merge_cells h hj c).mp hc
+    obtain ⟨k, hk, hpe⟩ := hex p hp
+    have hkc : k = joinKey (isIncremental a) c := by
+      have := mergeCellPair_key (inc := isIncremental a) hm
+      rw [hk] at this; exact Option.some.inj this
+    subst hkc
+    refine ⟨(hset _).mp (List.mem_map.mpr ⟨p, hp, hk⟩), ?_⟩
+    rw [hpe] at hm
+    generalize hx : Spec.cellAt (isIncremental a) (Spec.onCells on a) (joinKey (isIncremental a) c) = ox at hm
+    generalize hy : Spec.cellAt (isIncremental a) (Spec.onCells on b) (joinKey (isIncremental a) c) = oy at hm
+    cases ox with
+    | none =>
+      cases oy with
+      | none => simp [mergeCellPair] at hm
+      | some y => simp [mergeCellPair] at hm; subst hm; simp
+    | some x =>
+      cases oy with
+      | none => simp [mergeCellPair] at hm; subst hm; simp
+      | some y =>
+        simp only [mergeCellPair, Option.some.injEq] at hm
+        subst hm
+        have hxm := ((cellAt_eq_some_iff hna).mp hx).1
+        have hym := ((cellAt_eq_some_iff hnb).mp hy).1
+        obtain ⟨x0, hx0, hxv⟩ := mem_onCells_values hxm
+        obtain ⟨y0, hy0, hyv⟩ := mem_onCells_values hym
+        have wx : x.values.WF := hxv ▸ hv x0 (List.mem_append.mpr (Or.inl hx0))
+        have wy : y.values.WF := hyv ▸ hv y0 (List.mem_append.mpr (Or.inr hy0))
+        simp only [Bool.and_eq_true]
+        exact ⟨sameFrame_values x _, isRightUnion_union wx wy⟩
+  · simp only [Bool.or_eq_true, Bool.not_eq_true']
+    by_cases hs : Spec.setExpr ty ((Spec.onCells on a).map (joinKey (isIncremental a)))
+        ((Spec.onCells on b).map (joinKey (isIncremental a))) k = true
+    · exact Or.inr (List.contains_iff_mem.mpr ((hmemk k).mpr ((hset k).mpr hs)))
+    · exact Or.inl (by simpa using hs)
+
+theorem zip_map_self {α β} (l : List α) (f : α → β) : l.zip (l.map f) = l.map (fun a => (a, f a)) := by
+  induction l with
+  | nil => rfl
+  | cons a l ih => simp [ih]
+
+theorem sameFrame_of_frame {c o : Cell} (h : o = { c with values := o.values }) :
+    Spec.sameFrame c o = true := by
+  rw [h]; simp [Spec.sameFrame]
+
+/-- **`Spec.addStaticsSpec` holds of the model's `add_statics`** on a triangle, when the source has
+one cell per (metadata, period, evaluation date) and value dicts have distinct keys. -/
+theorem addStaticsSpec_of_addStatics {t src out : List Cell} {st : List String} (ht : Canonical t)
+    (hyp : Spec.addStaticsHyp t src = true) (hv : ∀ c ∈ t ++ src, c.values.WF)
+    (h : addStatics t src st = .ok out) : Spec.addStaticsSpec t src st out = true := by
+  rw [addStatics_eq_map ht] at h
+  cases h
+  unfold Spec.addStaticsHyp at hyp
+  simp only [Bool.and_eq_true, nodupB_iff] at hyp
+  unfold Spec.addStaticsSpec
+  simp only [Bool.and_eq_true, List.length_map, beq_self_eq_true, true_and, zip_map_self,
+    List.all_map, List.all_eq_true, Function.comp]
+  intro c hc
+  refine ⟨sameFrame_of_frame (addStaticsCell_frame src st c), ?_⟩
+  rw [latestSource?_eq_sourceCell? hyp.2]
+  cases hs : sourceCell? src c with
+  | none => simp [(addStaticsCell_values src st c).2.2 hs]
+  | some s =>
+    simp only []
+    have hsm := (sourceCell?_spec hs).1
+    have : (addStaticsCell src st c).values =
+        c.values.union (s.values.filter (fun kv => st.contains kv.1)) := by
+      unfold addStaticsCell; rw [hs]; rfl
+    rw [this]
+    exact isRightUnion_union (hv c (List.mem_append.mpr (Or.inl hc)))
+      (Dict.WF_filter (hv s (List.mem_append.mpr (Or.inr hsm))) _)
+
+theorem map_append_empty (d : Dict Val) : d.map (fun kv => (kv.1 ++ "", kv.2)) = d := by
+  conv => rhs; rw [← List.map_id d]
+  apply List.map_congr_left
+  intro kv _; simp
+
+theorem applySuffix_none (d : Dict Val) :
+    applySuffix none d = d.map (fun kv => (kv.1 ++ "", kv.2)) := (map_append_empty d).symm
+
+theorem applySuffix_some (s : String) (d : Dict Val) :
+    applySuffix (some s) d = d.map (fun kv => (kv.1 ++ s, kv.2)) := by
+  unfold applySuffix
+  simp only []
+  split
+  · rename_i he
+    have : s = "" := by simpa using he
+    subst this; exact (map_append_empty d).symm
+  · rfl
+
+theorem append_right_cancel {a b s : String} (h : a ++ s = b ++ s) : a = b := by
+  have := congrArg String.toList h
+  simp only [String.toList_append] at this
+  exact String.toList_inj.mp (List.append_cancel_right this)
+
+theorem WF_map_suffix {d : Dict Val} (h : d.WF) (s : String) :
+    Dict.WF (d.map (fun kv => (kv.1 ++ s, kv.2))) := by
+  unfold Dict.WF Dict.keys at *
+  rw [List.map_map]
+  have : ((fun x : String × Val => x.1) ∘ fun kv : String × Val => (kv.1 ++ s, kv.2)) =
+      (fun k => k ++ s) ∘ (fun x : String × Val => x.1) := rfl
+  rw [this, ← List.map_map]
+  exact List.Pairwise.map _ (fun x y hxy e => hxy (append_right_cancel e)) h
+
+theorem WF_applySuffix {d : Dict Val} (h : d.WF) (suffix : Option String) :
+    (applySuffix suffix d).WF := by
+  cases suffix with
+  | none => rw [applySuffix_none]; exact WF_map_suffix h ""
+  | some s => rw [applySuffix_some]; exact WF_map_suffix h s
+
+/-- **`Spec.periodMergeSpec` holds of the model's `period_merge`** on a triangle, when value dicts
+have distinct keys (suffixing keeps them distinct: `WF_applySuffix`). -/
+theorem periodMergeSpec_of_periodMerge {a b out : List Cell} {suffix : Option String}
+    (ha : Canonical a) (hva : ∀ c ∈ a, c.values.WF)
+    (hvb : ∀ c ∈ b, c.values.WF)
+    (h : periodMerge a b suffix = .ok out) : Spec.periodMergeSpec a b suffix out = true := by
+  obtain ⟨_, rfl, hlen⟩ := periodMerge_spec ha h
+  unfold Spec.periodMergeSpec
+  simp only [Bool.and_eq_true, List.length_map, beq_self_eq_true, true_and, zip_map_self,
+    List.all_map, List.all_eq_true, Function.comp]
+  intro c hc
+  refine ⟨sameFrame_of_frame (pmCell_frame b suffix c), ?_⟩
+  have hfil : b.filter (fun r => r.ps == c.ps && r.pe == c.pe && r.md == c.md) =
+      b.filter (samePeriodKey c) := rfl
+  rw [hfil]
+  have hl := hlen c hc
+  unfold pmCell
+  generalize hf : b.filter (samePeriodKey c) = F at hl
+  match F, hl with
+  | [], _ => simp
+  | [r], _ =>
+    simp only []
+    have hr : r ∈ b := (List.mem_filter.mp (hf ▸ List.mem_singleton.mpr rfl)).1
+    have hw := WF_applySuffix (hvb r hr) suffix
+    cases suffix with
+    | none =>
+      simp only []
+      rw [← applySuffix_none]
+      exact isRightUnion_union (hva c hc) hw
+    | some s =>
+      simp only []
+      rw [← applySuffix_some]
+      exact isRightUnion_union (hva c hc) hw
+  | _ :: _ :: _, hl => simp at hl
+
+/-! ### 8b. select → merge recombination -/
+
+theorem mapM_mk_all_ok {f : Cell → Cell} {t : List Cell} (h : ∀ c ∈ t, (f c).datesOk = true) :
+    t.mapM (fun c => (f c).mk?) = .ok (t.map f) := by
+  induction t with
+  | nil => rfl
+  | cons a t ih =>
+    rw [List.mapM_cons, ih (fun c hc => h c (by simp [hc]))]
+    simp [Cell.mk?, h a (by simp), bind, Except.bind, pure, Except.pure]
+
+theorem select_frame (ks : List String) (c : Cell) :
+    c.select ks = { c with values := (c.select ks).values } := rfl
+
+/-- on a triangle `select` is the cell-wise restriction of the value dicts, order unchanged -/
+theorem select_eq_map {t : List Cell} (ks : List String) (ht : Canonical t) :
+    Triangle.select t ks = .ok (t.map (·.select ks)) := by
+  unfold Triangle.select
+  have : t.mapM (fun c => (c.select ks).mk?) = .ok (t.map (·.select ks)) :=
+    mapM_mk_all_ok (f := (·.select ks)) (fun c hc => ht.2.2 c hc)
+  simp only [bind, Except.bind, this]
+  exact ofCells_idem (frame_map_canonical (select_frame ks) ht)
+
+theorem joinKey_frame {f : Cell → Cell} (hf : ∀ c, f c = { c with values := (f c).values })
+    (inc : Bool) (c : Cell) : joinKey inc (f c) = joinKey inc c := by
+  rw [hf c]; rfl
+
+theorem isIncremental_map_frame {f : Cell → Cell} (hf : ∀ c, f c = { c with values := (f c).values })
+    (t : List Cell) : isIncremental (t.map f) = isIncremental t := by
+  cases t with
+  | nil => rfl
+  | cons c t => simp only [List.map_cons, isIncremental]; rw [hf c]
+
+theorem keys_map_frame {f : Cell → Cell} (hf : ∀ c, f c = { c with values := (f c).values })
+    (inc : Bool) (t : List Cell) : (t.map f).map (joinKey inc) = t.map (joinKey inc) := by
+  rw [List.map_map]; apply List.map_congr_left; intro c _; exact joinKey_frame hf inc c
+
+theorem dictGet_map_frame {f : Cell → Cell} (hf : ∀ c, f c = { c with values := (f c).values })
+    {inc : Bool} {t : List Cell} (hn : (t.map (joinKey inc)).Nodup) {c : Cell} (hc : c ∈ t) :
+    dictGet inc (t.map f) (joinKey inc c) = some (f c) := by
+  have hn' : ((t.map f).map (joinKey inc)).Nodup := by rw [keys_map_frame hf]; exact hn
+  rw [dictGet_eq_cellAt hn']
+  exact (cellAt_eq_some_iff hn').mpr ⟨List.mem_map.mpr ⟨c, hc, rfl⟩, joinKey_frame hf inc c⟩
+
+/-- merging two value-only images of one triangle (`t.map f`, `t.map g`, where `f`, `g` rewrite
+nothing but `values`) gives, cell by cell and in the same order, the left frame with
+`{**f(c).values, **g(c).values}` -/
+theorem merge_frame_maps {ty : JoinType} (hty : ty = .full ∨ ty = .inner ∨ ty = .left ∨ ty = .right)
+    {f g : Cell → Cell}
+    (hf : ∀ c, f c = { c with values := (f c).values })
+    (hg : ∀ c, g c = { c with values := (g c).values })
+    {t : List Cell} (ht : Canonical t) (hn : (t.map (joinKey (isIncremental t))).Nodup) :
+    merge (some ty) none (t.map f) (t.map g) =
+      .ok (t.map (fun c => { f c with values := (f c).values.union (g c).values })) := by
+  have hkm : kindMismatch (t.map f) (t.map g) = false := by
+    cases t with
+    | nil => rfl
+    | cons c t =>
+      simp only [List.map_cons, kindMismatch]
+      rw [hf c, hg c]; simp
+  have hj : join (some ty) none (t.map f) (t.map g) = .ok (joinCore ty (t.map f) (t.map g)) := by
+    unfold join
+    simp [hkm, reduceOn, bind, Except.bind, pure, Except.pure]
+  have hinc := isIncremental_map_frame hf t
+  have hall : allCoordinates (t.map f) (t.map g) = t.map (joinKey (isIncremental t)) := by
+    unfold allCoordinates
+    simp only [hinc, keys_map_frame hf, keys_map_frame hg]
+    rw [dedup_append_of_subset (fun _ h => h), dedup_of_nodup hn]
+  have hcore : joinCore ty (t.map f) (t.map g) = t.map (fun c => (some (f c), some (g c))) := by
+    rw [joinCore_eq, hall, hinc, keys_map_frame hf, keys_map_frame hg,
+      List.filter_eq_self.mpr (fun k hk => setExpr_self hty hk), List.map_map]
+    apply List.map_congr_left
+    intro c hc
+    simp only [Function.comp, pairOf, dictGet_map_frame hf hn hc, dictGet_map_frame hg hn hc]
+  unfold merge
+  simp only [hj, bind, Except.bind]
+  rw [hcore, List.filterMap_map]
+  have : List.filterMap (mergeCellPair ∘ fun c => (some (f c), some (g c))) t =
+      t.map (fun c => { f c with values := (f c).values.union (g c).values }) := by
+    rw [← List.filterMap_eq_map]
+    rfl
+  rw [this]
+  apply ofCells_idem
+  exact frame_map_canonical (f := fun c => { f c with values := (f c).values.union (g c).values })
+    (fun c => by show _ = _; rw [hf c]) ht
+
+
+/-- **select_merge_recombine**: split the fields of a triangle with `select ks₁` / `select ks₂` and
+merge the parts back (`full`, `inner`, `left` or `right`; no `on`). Hypotheses: `t` is a canonical
+triangle, its join keys are distinct, value dicts have distinct keys. Then the result has the cells
+of `t` in the same order with the same frames, and as a finite map the value dict of cell `i` is
+that of `t[i]` restricted to `ks₁ ∪ ks₂`. -/
+theorem select_merge_recombine {ty : JoinType}
+    (hty : ty = .full ∨ ty = .inner ∨ ty = .left ∨ ty = .right)
+    {t t₁ t₂ m : List Cell} {ks₁ ks₂ : List String} (ht : Canonical t)
+    (hn : (t.map (joinKey (isIncremental t))).Nodup) (hv : ∀ c ∈ t, c.values.WF)
+    (h₁ : Triangle.select t ks₁ = .ok t₁) (h₂ : Triangle.select t ks₂ = .ok t₂)
+    (h : merge (some ty) none t₁ t₂ = .ok m) :
+    m.length = t.length ∧
+    ∀ i (hi : i < t.length) (hm : i < m.length),
+      m[i] = { t[i] with values := m[i].values } ∧ m[i].values.WF ∧
+      ∀ f, m[i].values.get? f =
+        if ks₁.contains f || ks₂.contains f then t[i].values.get? f else none := by
+  rw [select_eq_map ks₁ ht] at h₁; cases h₁
+  rw [select_eq_map ks₂ ht] at h₂; cases h₂
+  rw [merge_frame_maps hty (select_frame ks₁) (select_frame ks₂) ht hn] at h
+  cases h
+  refine ⟨List.length_map _, fun i hi hm => ?_⟩
+  rw [List.getElem_map]
+  have hw := hv t[i] (List.getElem_mem hi)
+  have hw₁ : Dict.WF (t[i].values.filter (fun kv => ks₁.contains kv.1)) := Dict.WF_filter hw _
+  have hw₂ : Dict.WF (t[i].values.filter (fun kv => ks₂.contains kv.1)) := Dict.WF_filter hw _
+  refine ⟨rfl, Dict.WF_union hw₁ _, fun f => ?_⟩
+  show Dict.get? (Dict.union (t[i].values.filter (fun kv => ks₁.contains kv.1))
+      (t[i].values.filter (fun kv => ks₂.contains kv.1))) f = _
+  rw [Dict.get?_union _ _ hw₂, Dict.get?_filter_j _ (fun k => ks₂.contains k),
+    Dict.get?_filter_j _ (fun k => ks₁.contains k)]
+  cases ks₁.contains f <;> cases ks₂.contains f <;> simp
+
+/-- … and when `ks₁ ∪ ks₂` covers every field, the original triangle comes back: same cells in the
+same order, every field with its original value (value dicts equal as finite maps; Python's
+`values_eq` / `Cell.__eq__` do not see dict order). -/
+theorem select_merge_original {ty : JoinType}
+    (hty : ty = .full ∨ ty = .inner ∨ ty = .left ∨ ty = .right)
+    {t t₁ t₂ m : List Cell} {ks₁ ks₂ : List String} (ht : Canonical t)
+    (hn : (t.map (joinKey (isIncremental t))).Nodup) (hv : ∀ c ∈ t, c.values.WF)
+    (hcov : ∀ c ∈ t, ∀ f ∈ c.values.keys, f ∈ ks₁ ∨ f ∈ ks₂)
+    (h₁ : Triangle.select t ks₁ = .ok t₁) (h₂ : Triangle.select t ks₂ = .ok t₂)
+    (h : merge (some ty) none t₁ t₂ = .ok m) :
+    m.length = t.length ∧
+    ∀ i (hi : i < t.length) (hm : i < m.length),
+      m[i] = { t[i] with values := m[i].values } ∧
+      ∀ f, m[i].values.get? f = t[i].values.get? f := by
+  obtain ⟨hl, hcells⟩ := select_merge_recombine hty ht hn hv h₁ h₂ h
+  refine ⟨hl, fun i hi hm => ⟨(hcells i hi hm).1, fun f => ?_⟩⟩
+  rw [(hcells i hi hm).2.2 f]
+  split
+  · rfl
+  · rename_i hnot
+    symm
+    rw [Dict.get?_eq_none_iff]
+    intro hf
+    simp only [Bool.or_eq_true, List.contains_iff_mem, not_or] at hnot
+    rcases hcov t[i] (List.getElem_mem hi) f hf with h | h
+    · exact hnot.1 h
+    · exact hnot.2 h
+
 /-! ### 9. non-vacuity: concrete operands satisfy the hypotheses -/
 
 def isValueError {α} : Except Err α → Bool
@@ -660,32 +991,6 @@ example : exA.map (pmCell [exB[0]!] (some "_r")) =
         ("paid_loss_r", .int 7), ("reported_loss_r", .int 9)] ] := by decide +kernel
 
 /-! ### 10. statements not proved here (kept visible; checked by the differential run only) -/
-
--- OPEN mergeSpec_of_merge
--- theorem mergeSpec_of_merge {ty on a b out} (hyp : Spec.joinHyp on a b = true)
---     (hv : ∀ c ∈ a ++ b, c.values.WF) (h : merge (some ty) on a b = .ok out) :
---     Spec.mergeSpec ty on a b out = true
--- (the Prop-level content is proved: `merge_cells`, `merge_values`, `merge_unmatched_id`,
---  `merge_length`, `join_keys_on`, `join_pairs_exact`; missing is the Bool bridge for `isRightUnion`)
-
--- OPEN addStaticsSpec_of_addStatics
--- theorem addStaticsSpec_of_addStatics {t src st out} (ht : Canonical t)
---     (hyp : Spec.addStaticsHyp t src = true) (hv : ∀ c ∈ src, c.values.WF)
---     (h : addStatics t src st = .ok out) : Spec.addStaticsSpec t src st out = true
--- (proved at Prop level: `addStatics_spec`, `addStaticsCell_values`, `sourceCell?_spec`; missing:
---  `Spec.latestSource?` (fold max) picks the same cell as `sourceCell?` under `addStaticsHyp`)
-
--- OPEN periodMergeSpec_of_periodMerge
--- theorem periodMergeSpec_of_periodMerge {a b sfx out} (ha : Canonical a)
---     (hv : ∀ c ∈ b, (applySuffix sfx c.values).WF) (h : periodMerge a b sfx = .ok out) :
---     Spec.periodMergeSpec a b sfx out = true
--- (proved at Prop level: `periodMerge_spec`, `pmCell_values`)
-
--- OPEN select_merge_recombine
--- theorem select_merge_recombine {t ks₁ ks₂ t₁ t₂ m} (ht : Canonical t) (hn : distinct keys)
---     (h₁ : Triangle.select t ks₁ = .ok t₁) (h₂ : Triangle.select t ks₂ = .ok t₂)
---     (h : merge (some .full) none t₁ t₂ = .ok m) :
---     ∀ i, m[i] has the frame of t[i] and  m[i].values.get? f = if f ∈ ks₁ ∪ ks₂ then t[i].values.get? f else none
 
 -- OPEN addStatics_regrouping
 -- the literal Python loop (`triangle.slices` → concatenate per slice → `Triangle(...)`) equals
